@@ -163,7 +163,7 @@ def gen_cases(rng, tier):
         cases.append({"id": len(cases), "src": src, "prior": prior, "out": out, "fs": "os", "faults": faults, "stream": kind})
     for src, prior, out in CORPUS:
         add(src, prior, out, "corpus", faults=True)
-    n = 500 if tier == "quick" else 6000
+    n = 500 if tier == "quick" else 4000
     for i in range(n):
         r = rng.random()
         if r < 0.6:      # main stream: inside the guard (simple names, supported kinds), rich prior states
